@@ -1,3 +1,40 @@
-/-  C13/Theorems — the ledger for property C13 (every theorem here is audited).  Placeholder. -/
+/-
+  C13/Theorems — the ledger for property C13.  Every `theorem` in this file is audited
+  (`#print axioms` ⊆ {propext, Classical.choice, Quot.sound}) on every run.
+-/
+import OttoVerif.C13.Spec
+import OttoVerif.C05.Theorems
 namespace OttoVerif.C13.Thm
+open OttoVerif.F64 OttoVerif.Str OttoVerif.C13
+
+/-! ## isNaN / isFinite apply ToNumber (§15.1.2.4–5) -/
+
+theorem isNaN_isFinite (E : C05.Env) (v : C05.Val) :
+    globalIsNaN E v = Spec.globalIsNaN E v ∧ globalIsFinite E v = Spec.globalIsFinite E v := by
+  simp only [globalIsNaN, globalIsFinite, Spec.globalIsNaN, Spec.globalIsFinite, ← C05.Thm.toNumber_eq]
+  cases C05.toFloat E v <;> simp [isNaN, isInf]
+
+/-! ## abs -/
+
+theorem abs_eq (x : FV) : mathAbs x = Spec.abs x := by
+  cases x <;> rfl
+
+/-! ## Dev witnesses (kernel-checked; each is replayed on the real code by the harness) -/
+
+/-- round_half_add: 0.49999999999999994 + 0.5 rounds to 1 -/
+example : encode (mathRound (.fin false (2^53-1) (-54))) ≠ encode (Spec.round (.fin false (2^53-1) (-54))) := by decide +kernel
+/-- round_half_add: 2^52+1 + 0.5 is a tie, rounds to even -/
+example : encode (mathRound (.fin false (2^52+1) 0)) ≠ encode (Spec.round (.fin false (2^52+1) 0)) := by decide +kernel
+/-- escape_at -/
+example : unitsOfBytes (escape (.go [64])) ≠ Spec.escape [64] := by decide
+/-- escape_astral: U+1F600 -/
+example : unitsOfBytes (escape (.go [0xF0, 0x9F, 0x98, 0x80])) ≠ Spec.escape (unitsOfBytes [0xF0, 0x9F, 0x98, 0x80]) := by decide
+/-- unescape_nonascii: "é" -/
+example : unitsOfBytes (unescape (.go [0xC3, 0xA9])) ≠ Spec.unescape (unitsOfBytes [0xC3, 0xA9]) := by decide
+/-- unescape_surrogate: "%uD83D%uDE00" -/
+example : unitsOfBytes (unescape (.go [37,117,68,56,51,68,37,117,68,69,48,48])) ≠ Spec.unescape [37,117,68,56,51,68,37,117,68,69,48,48] := by decide
+/-- lone_surrogate_input -/
+example : unitsOfBytes (escape (.u16 [0xD800])) ≠ Spec.escape [0xD800] := by decide
+example : (decodeURI false (.u16 [0xD800])).map unitsOfBytes ≠ Spec.decodeURIComponent [0xD800] := by decide
+
 end OttoVerif.C13.Thm
